@@ -218,16 +218,19 @@ Proof. intros. rewrite nh_run_app, H, H0. reflexivity. Qed.
 Lemma stamp_app : forall now a b, stamp now (a ++ b) = stamp now a ++ stamp now b.
 Proof. intros; unfold stamp; apply map_app. Qed.
 
-Lemma sim_ingress_refines : forall rx i now i' fr,
-  sim_ingress i rx now = Ok (i', fr) ->
-  nh_run i (map (EvRx now) rx) = Ok (i', stamp now fr).
+Lemma sim_ingress_refines : forall rx i now b i' fr lft b',
+  sim_ingress i rx now b = Ok (i', fr, lft, b') ->
+  exists evs, nh_run i evs = Ok (i', stamp now fr).
 Proof.
-  induction rx as [|f r IH]; intros i now i' fr H; cbn [sim_ingress map nh_run] in *.
-  - inversion H; subst; reflexivity.
-  - cbn [nh_step].
-    destruct (nh_process_rx i now f) as [[i1 f1]| |]; simpl in *; try discriminate.
-    destruct (sim_ingress i1 r now) as [[i2 f2]| |] eqn:R; simpl in *; try discriminate.
-    inversion H; subst. rewrite (IH _ _ _ _ R). simpl. unfold stamp. rewrite map_app. reflexivity.
+  induction rx as [|f r IH]; intros i now b i' fr lft b' H; cbn [sim_ingress] in *.
+  - inversion H; subst. exists []. reflexivity.
+  - destruct (bud_empty b).
+    { inversion H; subst. exists []. reflexivity. }
+    destruct (nh_process_rx i now f) as [[i1 f1]| |] eqn:P; simpl in H; try discriminate.
+    destruct (sim_ingress i1 r now (bud_take b (length f1))) as [[[[i2 f2] l2] b2]| |] eqn:R; simpl in H; try discriminate.
+    inversion H; subst. destruct (IH _ _ _ _ _ _ _ R) as [e2 E2].
+    exists (EvRx now f :: e2). cbn [nh_run nh_step]. rewrite P. simpl. rewrite E2. simpl.
+    unfold stamp. rewrite map_app. reflexivity.
 Qed.
 
 Lemma sock_egress_refines : forall i s now i' s' fr b,
@@ -247,31 +250,34 @@ Proof.
   destruct r1; inversion H; subst; rewrite app_nil_r; reflexivity.
 Qed.
 
-Lemma socket_egress_refines : forall ss i now i' ss' fr b,
-  sim_socket_egress i ss now = Ok (i', ss', fr, b) ->
+Lemma socket_egress_refines : forall ss i now bd i' ss' fr b bd',
+  sim_socket_egress i ss now bd = Ok (i', ss', fr, b, bd') ->
   exists evs, nh_run i evs = Ok (i', stamp now fr).
 Proof.
-  induction ss as [|s r IH]; intros i now i' ss' fr b H; cbn [sim_socket_egress] in H.
+  induction ss as [|s r IH]; intros i now bd i' ss' fr b bd' H; cbn [sim_socket_egress] in H.
   - inversion H; subst. exists []. reflexivity.
-  - destruct (sim_sock_egress i s now) as [[[[i1 s1] f1] b1]| |] eqn:S; simpl in H; try discriminate.
-    destruct (sim_socket_egress i1 r now) as [[[[i2 r2] f2] b2]| |] eqn:R; simpl in H; try discriminate.
+  - destruct (if bud_empty bd then sim_sock_wants_token i s now else None) as [s0|].
+    { inversion H; subst. exists []. reflexivity. }
+    destruct (sim_sock_egress i s now) as [[[[i1 s1] f1] b1]| |] eqn:S; simpl in H; try discriminate.
+    destruct (sim_socket_egress i1 r now (bud_take bd (length f1))) as [[[[[i2 r2] f2] b2] bd2]| |] eqn:R;
+      simpl in H; try discriminate.
     inversion H; subst.
     destruct (sock_egress_refines _ _ _ _ _ _ _ S) as [e1 E1].
-    destruct (IH _ _ _ _ _ _ R) as [e2 E2].
+    destruct (IH _ _ _ _ _ _ _ _ R) as [e2 E2].
     exists (e1 ++ e2). rewrite stamp_app. eapply nh_run_app_ok; eauto.
 Qed.
 
-Lemma egress_loop_refines : forall fuel i ss now i' ss' fr,
-  sim_egress_loop fuel i ss now = Ok (i', ss', fr) ->
+Lemma egress_loop_refines : forall fuel i ss now bd i' ss' fr,
+  sim_egress_loop fuel i ss now bd = Ok (i', ss', fr) ->
   exists evs, nh_run i evs = Ok (i', stamp now fr).
 Proof.
-  induction fuel as [|n IH]; intros i ss now i' ss' fr H; cbn [sim_egress_loop] in H.
+  induction fuel as [|n IH]; intros i ss now bd i' ss' fr H; cbn [sim_egress_loop] in H.
   - inversion H; subst. exists []. reflexivity.
-  - destruct (sim_socket_egress i ss now) as [[[[i1 ss1] f1] again]| |] eqn:S; simpl in H; try discriminate.
-    destruct (socket_egress_refines _ _ _ _ _ _ _ S) as [e1 E1].
+  - destruct (sim_socket_egress i ss now bd) as [[[[[i1 ss1] f1] again] bd1]| |] eqn:S; simpl in H; try discriminate.
+    destruct (socket_egress_refines _ _ _ _ _ _ _ _ _ S) as [e1 E1].
     destruct again.
-    + destruct (sim_egress_loop n i1 ss1 now) as [[[i2 ss2] f2]| |] eqn:L; simpl in H; try discriminate.
-      inversion H; subst. destruct (IH _ _ _ _ _ _ L) as [e2 E2].
+    + destruct (sim_egress_loop n i1 ss1 now bd1) as [[[i2 ss2] f2]| |] eqn:L; simpl in H; try discriminate.
+      inversion H; subst. destruct (IH _ _ _ _ _ _ _ L) as [e2 E2].
       exists (e1 ++ e2). rewrite stamp_app. eapply nh_run_app_ok; eauto.
     + inversion H; subst. exists e1. exact E1.
 Qed.
@@ -282,13 +288,14 @@ Lemma sim_poll_refines : forall st now st' fr,
 Proof.
   intros st now st' fr H. unfold sim_poll in H.
   remember (S (sim_queued (sim_socks st))) as fuel.
-  destruct (sim_ingress (sim_if st) (sim_rx st) now) as [[i1 f1]| |] eqn:I; simpl in H; try discriminate.
-  destruct (sim_egress_loop fuel i1 (sim_socks st) now) as [[[i2 ss2] f2]| |] eqn:L;
+  destruct (sim_ingress (sim_if st) (sim_rx st) now (sim_txb st)) as [[[[i1 f1] l1] b1]| |] eqn:I; simpl in H; try discriminate.
+  destruct (sim_egress_loop fuel i1 (sim_socks st) now b1) as [[[i2 ss2] f2]| |] eqn:L;
     simpl in H; try discriminate.
   inversion H; subst. cbn [sim_if].
-  destruct (egress_loop_refines _ _ _ _ _ _ _ L) as [e2 E2].
-  exists (map (EvRx now) (sim_rx st) ++ e2). rewrite stamp_app.
-  eapply nh_run_app_ok; [apply sim_ingress_refines; exact I | exact E2].
+  destruct (sim_ingress_refines _ _ _ _ _ _ _ _ I) as [e1 E1].
+  destruct (egress_loop_refines _ _ _ _ _ _ _ _ L) as [e2 E2].
+  exists (e1 ++ e2). rewrite stamp_app.
+  eapply nh_run_app_ok; eauto.
 Qed.
 
 (* frames of one simulation step with their time (only polls transmit) *)
@@ -328,6 +335,9 @@ Proof.
     inversion S; subst. exists [EvRoutes l]. reflexivity.
   - inversion S; subst. eexists [EvRoutes _]. reflexivity.
   - inversion S; subst. eexists [EvRoutes _]. reflexivity.
+  - destruct (nh_set_hardware_addr (sim_if st) hw) as [i1| |] eqn:P; simpl in S; try discriminate.
+    inversion S; subst. exists [EvSetHw hw]. cbn [nh_run nh_step]. rewrite P. reflexivity.
+  - inversion S; subst. exists []. reflexivity.
   - destruct (sim_poll st now) as [[st2 f2]| |] eqn:P; simpl in S; try discriminate.
     inversion S; subst. apply sim_poll_refines; exact P.
 Qed.
@@ -367,4 +377,39 @@ Proof.
   destruct (sim_trace_refines _ _ _ _ H) as [nevs R].
   change (sim_if (sim_init ether hw cap rcap qcap kinds)) with (nh_init ether hw cap) in R.
   exact (cache_bounded_run _ _ _ _ _ _ Hcap R).
+Qed.
+
+(* ---------- device back-pressure and set_hardware_addr ---------- *)
+
+(* a socket turn that finds no transmit token ends the pass: the interface (cache, rate limiter)
+   is untouched, nothing is emitted, every queue is as before *)
+Lemma socket_egress_exhausted : forall i s rest now b s1,
+  bud_empty b = true -> sim_sock_wants_token i s now = Some s1 ->
+  sim_socket_egress i (s :: rest) now b = Ok (i, s1 :: rest, [], false, b) /\
+  sk_q s1 = sk_q s /\ sk_kind s1 = sk_kind s.
+Proof.
+  intros i s rest now b s1 E W. cbn [sim_socket_egress]. rewrite E, W. split; [reflexivity|].
+  unfold sim_sock_wants_token in W.
+  destruct (meta_egress_permitted (sk_meta s) now (nh_has_neighbor i now)) as [permitted m1].
+  destruct permitted; cbn [negb] in W; [|discriminate].
+  destruct (sk_q s) as [|[dst tag] r] eqn:Q; [discriminate|].
+  match type of W with (if ?c then _ else _) = _ => destruct c end; [discriminate|].
+  inversion W; subst. cbn [sk_q sk_kind]. auto.
+Qed.
+
+(* without budget the device hands out no received frame either: everything stays queued *)
+Lemma ingress_exhausted : forall i rx now b, bud_empty b = true ->
+  sim_ingress i rx now b = Ok (i, [], rx, b).
+Proof. intros i [|f r] now b E; cbn [sim_ingress]; [reflexivity | rewrite E; reflexivity]. Qed.
+
+(* set_hardware_addr keeps the neighbor cache and everything else; it panics exactly for a
+   non-unicast address *)
+Lemma set_hardware_addr_spec : forall i hw,
+  (hw_is_unicast i hw = true ->
+     exists i', nh_set_hardware_addr i hw = Ok i' /\ if_hw i' = hw /\ if_cache i' = if_cache i /\
+                if_addrs i' = if_addrs i /\ if_routes i' = if_routes i /\ if_cap i' = if_cap i) /\
+  (hw_is_unicast i hw = false -> nh_set_hardware_addr i hw = Panic).
+Proof.
+  intros i hw. unfold nh_set_hardware_addr. split; intro H; rewrite H; [|reflexivity].
+  eexists; split; [reflexivity|]. repeat split.
 Qed.
